@@ -16,3 +16,33 @@ package larking
 //@ func WSStatusCode serves C05 C09
 //@   ensures [table] c <= 16 ==> result == WSOf(c)
 //@   ensures [range] c > 16 ==> result == 1011
+
+// ---------------------------------------------------------------------------
+// codec.go
+
+//@ func growcap serves C09 C17
+//@   requires oldcap >= 0 && wantcap >= 0
+//@   ensures [atleast] newcap >= wantcap
+//@   loop 1 invariant newcap <= 0 || newcap >= 1024
+//@   loop 1 decreases (0 < newcap && newcap < wantcap) ? wantcap - newcap : 0
+
+// ---------------------------------------------------------------------------
+// grpc.go
+
+//@ const Hour = 3600000000000
+//@ const MaxInt64 = 9223372036854775807
+//@ spec IsUnit(c) = c == 'H' || c == 'M' || c == 'S' || c == 'm' || c == 'u' || c == 'n'
+//@ spec UnitOf(c) = c == 'H' ? Hour : c == 'M' ? 60000000000 : c == 'S' ? 1000000000 : c == 'm' ? 1000000 : c == 'u' ? 1000 : c == 'n' ? 1 : 0
+//@ spec IsDigit(c) = '0' <= c && c <= '9'
+//@ spec LegalTimeout(s) = 2 <= len(s) && len(s) <= 9 && IsUnit(s[len(s)-1])
+//@      && (forall k :: 0 <= k && k < len(s)-1 ==> IsDigit(s[k]))
+
+//@ func timeoutUnit serves C15
+//@   ensures [unit] result == UnitOf(s)
+
+//@ func decodeTimeout serves C15
+//@   returns (d, err)
+//@   ensures [legal-accepted] LegalTimeout(s) ==> err == nil
+//@   ensures [legal-value] LegalTimeout(s) ==> d == min(DecVal(s[:len(s)-1]) * UnitOf(s[len(s)-1]), MaxInt64)
+//@   ensures [malformed-refused] err == nil ==> LegalTimeout(s)
+//@   oracle (err != nil || verifLegalTimeout(s)) && (!verifLegalTimeout(s) || err == nil)
